@@ -525,8 +525,8 @@ Qed.
 
 Lemma c_forbidden_canon : forall c,
   is_none (find_map c_item_forbidden (command_items c)) =
-  is_none (ak_byte_order c) && is_none (ak_bit_order c) && is_none (ak_size_in c) && is_none (ak_size_out c)
-  && is_none (ak_allow_bit_overlap c).
+  is_none (ak_byte_order c) && is_none (ak_bit_order c) && is_none (ak_allow_bit_overlap c) && is_none (ak_size_in c)
+  && is_none (ak_size_out c).
 Proof.
   intros [a b c d e f g h fi fo ord ba br]. unfold command_items.
   cbn [ak_byte_order ak_bit_order ak_address ak_size_in ak_size_out ak_repeat ak_allow_bit_overlap
@@ -568,7 +568,7 @@ Proof.
     destruct (head_plain h); cbn [negb andb]; [|reflexivity].
     pose proof (map_nil_iff field_to_dsl (ar_fields r)) as Hm.
     destruct (map field_to_dsl (ar_fields r)) as [|f0 ft]; destruct (ar_fields r) as [|g0 gt]; try discriminate;
-      cbn [andb]; [|reflexivity].
+      [rewrite andb_true_r|rewrite andb_false_r; reflexivity].
     pose proof (is_none_find_map_reorder r_item_forbidden (ar_order r) (register_items r)) as Hf.
     rewrite r_forbidden_canon in Hf.
     destruct (find_map r_item_forbidden (reorder (ar_order r) (register_items r))) as [e|] eqn:Ee.
@@ -584,8 +584,10 @@ Proof.
     cbn [object_ok] in Hok. unfold command_ok in Hok. repeat (apply andb_prop in Hok; destruct Hok as [Hok ?]).
     unfold dsl_command_override, command_to_dsl. cbn [orb]. rewrite no_attrs_head.
     destruct (head_plain h); cbn [negb andb]; [|reflexivity].
-    destruct (ak_fields_in c) as [fi|]; cbn [option_map is_none andb]; [reflexivity|].
-    destruct (ak_fields_out c) as [fo|]; cbn [option_map is_none andb]; [reflexivity|].
+    destruct (ak_fields_in c) as [fi|]; cbn [option_map is_none];
+      [rewrite andb_false_r; reflexivity|rewrite andb_true_r].
+    destruct (ak_fields_out c) as [fo|]; cbn [option_map is_none];
+      [rewrite andb_false_r; reflexivity|rewrite andb_true_r].
     pose proof (is_none_find_map_reorder c_item_forbidden (ak_order c) (command_items c)) as Hf.
     rewrite c_forbidden_canon in Hf.
     destruct (find_map c_item_forbidden (reorder (ak_order c) (command_items c))) as [e|] eqn:Ee.
